@@ -6,7 +6,7 @@
    RFCs, not from the Rust parser). *)
 From Coq Require Import List NArith Bool.
 From RB Require Import Base.Val Model.Caps Model.WireEnc Spec.WireRead Spec.WireEncSpec Spec.WireReadFam Spec.WireFamSpec
-     Proofs.WireEnc Proofs.WireEncFam.
+     Proofs.WireEnc Proofs.WireEncFam Proofs.WireEncFix.
 Import ListNotations.
 Open Scope N_scope.
 
@@ -329,3 +329,24 @@ Check split_preserves_multiset_structured :
     fam_ok f -> Forall (structured k) es ->
     exists chunks, concat chunks = es /\ Forall2 (unreach_frame_struct_ok c f k) frames chunks.
 Print Assumptions split_preserves_multiset_structured.
+
+(* (16) Fixed point: the value the peer reads from what the encoder wrote for a representable
+   entry is itself representable, canonical (reading it again changes nothing), is written as
+   the very same octets, and those octets read as that value -- decode (encode y) = y for every y
+   obtained by decoding an encoding. *)
+Theorem structured_fixpoint :
+  forall (p : profile) (k : skind) (pid : N) (n : nlri),
+    structured k (pid, n) ->
+    structured k (pid, canon_struct n) /\
+    canon_struct (canon_struct n) = canon_struct n /\
+    enc_nlri p (canon_struct n) = enc_nlri p n /\
+    forall enc rest, enc_nlri p n = Ok enc -> read_struct k (enc ++ rest) = Some (canon_struct n, rest).
+Proof. exact C04_structured_fixpoint. Qed.
+Check structured_fixpoint :
+  forall (p : profile) (k : skind) (pid : N) (n : nlri),
+    structured k (pid, n) ->
+    structured k (pid, canon_struct n) /\
+    canon_struct (canon_struct n) = canon_struct n /\
+    enc_nlri p (canon_struct n) = enc_nlri p n /\
+    forall enc rest, enc_nlri p n = Ok enc -> read_struct k (enc ++ rest) = Some (canon_struct n, rest).
+Print Assumptions structured_fixpoint.
